@@ -78,7 +78,7 @@ pub fn judge_source(prog: &Prog, ctx: &mut Ctx, origin: &str) -> Judged {
 
 // ------------------------------------------------------------------ discard matrix
 
-fn prelude() -> Vec<E> {
+pub fn prelude() -> Vec<E> {
     vec![
         let_("g", E::Int(1)),
         let_("arr", E::Array(bx(E::Int(3)), bx(E::Int(0)))),
